@@ -41,3 +41,12 @@ mod scanner;
 pub use crate::input::{str::StrInput, BufferedInput, Input};
 pub use crate::parser::{Event, EventReceiver, Parser, SpannedEventReceiver, Tag};
 pub use crate::scanner::{Marker, ScalarStyle, ScanError, Span};
+
+/// Verification hooks: access to the private scanner and character classes for an external
+/// differential harness. Compiled only with the `verif-hooks` feature.
+#[cfg(feature = "verif-hooks")]
+#[allow(missing_docs)]
+pub mod verif {
+    pub use crate::char_traits::*;
+    pub use crate::scanner::{Chomping, Scanner, TEncoding, Token, TokenType};
+}
